@@ -42,7 +42,8 @@ async fn bounded_search_over_sqlite_store_histories() {
         for step in 0..14 {
             let (i, j) = (rnd(3) as usize, rnd(3) as usize);
             let ttl = ttls[rnd(3) as usize];
-            let state = st(["a", "b"][rnd(2) as usize], (h * 100 + step) as i64);
+            // sometimes the very state the record already holds (an unchanged state with another TTL must still take effect)
+            let state = match live.get(&i) { Some(m) if rnd(4) == 0 => m.state.clone(), _ => st(["a", "b"][rnd(2) as usize], (h * 100 + step) as i64) };
             let ctx = |log: &Vec<String>| format!("history {h}: {}", log.join("; "));
             match rnd(8) {
                 0 | 1 => {
